@@ -4,7 +4,7 @@ from . import obslib as O
 PROPERTY = "C08"
 DRIVER = "TraitsVerif/Driver/Obs.lean"
 PROPS_MODULES = ["TraitsVerif.Props.C08"]
-TRANSLATORS = []
+TRANSLATORS = ["obsl", "notl"]
 RULE = ("histories over a pool of 3-5 interlinked HasTraits objects (value:Int, mate:Instance(tag), child:Instance "
         "with an optional dynamic default, ichild / nchild: Instance with comparison_mode identity / none, per-case "
         "value semantics: pool objects in the same `~class` of the header compare == although distinct, mate (tag=True) "
@@ -14,7 +14,11 @@ RULE = ("histories over a pool of 3-5 interlinked HasTraits objects (value:Int, 
         "`items` expansion, +tag, *, optional traits, ':' vs '.') built with the public expression objects, then "
         "mutations (reassign, list/dict/set mutators incl. detached containers, same object twice, lists with repeated "
         "items under slice / extended-slice assignments that change multiplicities followed by pops, cycles, None "
-        "items, default materialisation, add_trait); after EVERY op each Int trait of each pool object is read "
+        "items, default materialisation, add_trait, `del obj.trait`; every mutator of TraitDict (`[]=`, update, `|=`, "
+        "setdefault, del, pop, popitem, clear; byname is Dict(CStr, Instance), keys also passed un-cast) and TraitSet "
+        "(add, discard, remove, pop, update, `|=`, `-=`, `&=`, `^=`, difference_update, symmetric_difference_update, "
+        "clear) in place with one-pair / one-item operands; a constant default that is a pool object shared by all "
+        "instances (`shared = Any(obj)`) read for the first time after observe()); after EVERY op each Int trait of each pool object is read "
         "and incremented and the notifier population of every trait and container is printed; non-trivial = the "
         "op delivered an event, changed a population or raised; distinct = distinct output line")
 TRUSTED = ["`==` of two distinct pool objects is a PARAMETER of the model (Env.eqo), supplied on the case line as "
@@ -26,8 +30,22 @@ TRUSTED = ["`==` of two distinct pool objects is a PARAMETER of the model (Env.e
            "graph compilation (series/parallel -> ObserverGraph list) is modelled (Expr.compile) and compared on "
            "every case; the text DSL itself is C15's subject (12 fixed DSL strings are checked to compile to the "
            "graphs sent to the model)",
+           "SOURCE TIE (translators obsl, notl; Model/ObsL.lean, Model/NotL.lean): _observe.py, apply_observers and the "
+           "add_to/remove_from/equals methods of the two notifier classes are translated from their text on every run "
+           "and the model is PROVED equal to their interpretation; what stays hand-written (= the runtime of the "
+           "interpreters) is the IObserver interface of a graph node (notify, iter_observables, iter_objects, "
+           "iter_extra_graphs, get_notifier, get_maintainer, graph.children - Model/ObsGraph.lean, generators evaluated "
+           "eagerly), the identity semantics of list.remove on notifier objects, and the identification of ==-equal "
+           "handlers / dispatchers with one model identifier; parameter defaults of the translated functions are not "
+           "part of the term (callers are translated with their explicit arguments)",
            "oracle = from-scratch path counting written in Python over the real objects (obslib.World.spec_walk)"]
-ASSUMPTIONS = ["dispatch='same' only; other dispatchers are modelled-not-verified",
+ASSUMPTIONS = ["`del obj.trait` is run with the notifier list of the trait in existence (trait._notifiers(True), as after "
+               "any earlier registration on it): ctraits tests the list against NULL there, which the model's hooks do "
+               "not record; `del` is composed by the Lean DRIVER from the model's read and fire steps (Model.Obs.Mutation "
+               "has no delete constructor, so C08's theorems do not speak about it)",
+               "multi-pair update / multi-item set operands are not generated (one event with several entries has no "
+               "counterpart among the model's mutations)",
+               "dispatch='same' only; other dispatchers are modelled-not-verified",
                "containers hold HasTraits instances or None; containers of containers are reached only through "
                "an object (kids.items.kids.items), not List(List(...))",
                "handlers do not raise and do not mutate the graph while being called",
@@ -68,7 +86,26 @@ def corpus():
         "obs|3|N,N,N|obs 0 0 meta.1 t.value.1.0 then;addt 0 xchild 2;set 0 xchild 1;addt 0 items 3;set 0 items 2;"
         "addt 1 xchild 6;set 1 xchild 2;addt 2 xchild 4",
         "obs|3|N,N,N|obs 0 0 any.1;addt 0 l2 0;get 0 l2 100;la 100 1;addt 0 l2 0",
+        # add_trait(List) abandoned half-way: under `*:*` the maintainer of `trait_added` raises on the
+        # announcement of the `l2_items` companion, which is defined by then; the next add_trait('l2', List)
+        # announces `l2` only (seed 7 thorough, correspondence: the driver announced the companion again)
+        "obs|3|2,N,N|obs 0 0 any.1 any.1 t.value.1.1 then then;set 2 nchild 0;addt 0 l2 2;get 0 l2 100;la 100 2;"
+        "get 0 tkids 102;addt 0 l2 2;get 0 mate 106",
+        "obs|3|N,N,N|obs 0 0 any.1 any.1 then;addt 0 l2 0;addt 0 l2 0;addt 0 l2 1;get 0 l2 100;la 100 1;addt 1 l2 0",
         "#obs|3|N,N,N|obs 0 0 any.1;obs 0 1 any.1;adhoc 0 1;adhoc 1 2",
+        # a CONSTANT default that is an observable object shared by all instances (header `S`), read after observe()
+        "obs|3|N,N,SN|obs 0 0 t.shared.1.0 t.value.1.0 then;get 0 shared 100;get 1 shared 102;set 0 shared 1;addt 0 extra 1",
+        "obs|3|SN,N,N|obs 0 1 t.shared.0.0 t.shared.1.0 then t.value.1.0 then;get 1 shared 100;get 0 shared 102;set 1 shared 2",
+        # every mutator of TraitDict (casting keys, cast / un-cast) and TraitSet, in place
+        "obs|3|N,N,N|setd 0 byname 100 [1:1,2:2];obs 0 0 t.byname.1.0 di.1.0 then t.value.1.0 then;diou 100 1 2;dsdu 100 2 0;"
+        "dsd 100 0 1;dsd 100 0 2;dpd 100 5;dpi 100;dp 100 1;duu 100 1 1;du 100 1 0;dsu 100 1 2;dio 100 3 0",
+        "obs|3|N,N,N|sets 0 group 100 [1];obs 0 0 t.group.1.0 si.1.0 then t.value.1.0 then;sp 100;six 100 1;six 100 1;"
+        "sxu 100 2;su 100 0;sio 100 1;sis 100 0;sia 100 1;sdu 100 2;sro 100 2;sro 100 0",
+        # known F99: `del obj.trait` hooks the re-materialised default twice (dynamic, constant and List defaults)
+        "obs|3|1,N,N|obs 0 0 t.child.1.0 t.value.1.0 then;get 0 child 100;del 0 child 102;set 0 child 2;del 0 child 104",
+        "obs|3|N,N,N|setl 0 kids 106 [1];obs 1 0 t.kids.1.0 li.1.0 then t.value.1.0 then;del 0 kids 108;la 108 2;"
+        "setl 0 kids 110 [];la 108 1",
+        "obs|3|N,N,SN|obs 0 0 t.shared.1.0 t.value.1.0 then;get 0 shared 100;set 0 shared 1;del 0 shared 104;set 0 shared 1",
         # value-equal but distinct objects (header `~class`): a dict value replaced by an equal object is
         # re-tracked; an identity- / none-compared trait reports an equal replacement
         "obs|3|N~2,N~1,N~2|setd 1 byname 100 [0:2];obs 0 1 t.byname.1.0 di.1.0 then t.value.1.0 then;ds 100 0 0;ds 100 0 2",
@@ -97,6 +134,10 @@ def generate(rng, tier):
         yield O.history_mult(rng)
     for _ in range(nh // 6):
         yield O.history_filt(rng)
+    for _ in range(nh // 8):
+        yield O.history_cont(rng)
+    for _ in range(nh // 8):
+        yield O.history_const(rng)
 
 
 def run_impl(case):
